@@ -183,6 +183,51 @@ class ProtoTop(Mon):
     pass
 
 
+def build_axil_slave_proto(kind, K):
+    """AXILiteSRAM / AXILite2CSR / AXILite2Wishbone(+SRAM) in front of a FREE AXI-Lite master: requests of both directions may be offered at the
+    same time, data after or before its address, the next request while a response is outstanding.  Protocol obligations only: a response is
+    given only to a request that has been accepted (B after its AW and W, R after its AR), every accepted request gets exactly one response
+    (counted), responses are held until accepted."""
+    from litex.soc.interconnect import axi, csr_bus
+    top = ProtoTop()
+    bus = axi.AXILiteInterface(data_width=32 if kind == "csr" else 8, address_width=8)
+    if kind == "sram":
+        sram, bus = _axil_sram(8, 8)
+        top.submodules.dut = sram
+    elif kind == "csr":
+        cb = csr_bus.Interface(data_width=32, address_width=6)
+        top.submodules.dut = axi.AXILite2CSR(bus, cb)
+        top.submodules.mem = csr_bus.SRAM(8, 0, bus=cb)
+    else:
+        sram, wb = _sram(8, 8, aw=8)
+        top.submodules.dut = axi.AXILite2Wishbone(bus, wb)
+        top.submodules.sram = sram
+    top.submodules.me = me = AxilMaster(bus, "m")
+    n = me.n
+    early = Signal(name_override="bad_response_without_request")
+    top.comb += early.eq((bus.b.valid & ~((n["b"] < n["aw"]) & (n["b"] < n["w"]))) | (bus.r.valid & ~(n["r"] < n["ar"])))
+    held = Signal(name_override="bad_response_not_held")
+    top.comb += held.eq(valid_stable_monitor(top, bus.b, "m_b") | valid_stable_monitor(top, bus.r, "m_r"))
+    # bounded service: with the master accepting responses at once, a complete request (AW and W, or AR) accepted earlier is answered within 8 cycles
+    wwait = top.reg(4, "w_wait"); rwait = top.reg(4, "r_wait")
+    owed_b = (n["b"] < n["aw"]) & (n["b"] < n["w"])
+    owed_r = n["r"] < n["ar"]
+    top.sync += [If(owed_b & ~hs(bus.b), If(wwait != 15, wwait.eq(wwait + 1))).Else(wwait.eq(0)), If(owed_r & ~hs(bus.r), If(rwait != 15, rwait.eq(rwait + 1))).Else(rwait.eq(0))]
+    rdy = Signal(name_override="asm_master_accepts_responses")
+    started = top.reg(1, "started")
+    top.sync += started.eq(1)
+    top.comb += rdy.eq(~started | (bus.b.ready & bus.r.ready))       # (frame-0 inputs are the reset values)
+    slow = Signal(name_override="bad_request_not_answered")
+    top.comb += slow.eq((wwait > 10) | (rwait > 10))
+    w = Signal(name_override="w_simultaneous_aw_ar_then_both_answered")
+    both = top.reg(1, "saw_both")
+    top.sync += If(bus.aw.valid & bus.ar.valid & ~bus.w.valid, both.eq(1))
+    top.comb += w.eq(both & (n["b"] >= 1) & (n["r"] >= 1))
+    return H("axilite_%s_free_master" % kind, top, me.free, assume=[me.asm, me.no_ovf, rdy], bad=dict(no_response_without_request=early, response_held=held, accepted_request_answered=slow),
+             witness=dict(simultaneous_aw_ar_with_late_w=w), K=K, funcs=FUNCS, cfg=dict(dut=kind, master="free AXI-Lite master (both directions at once, early/late data)"),
+             show=[bus.aw.valid, bus.aw.ready, bus.w.valid, bus.w.ready, bus.b.valid, bus.b.ready, bus.ar.valid, bus.ar.ready, bus.r.valid, bus.r.ready], vcycles=30, timeout_s=2400)
+
+
 def build_axil2wb_proto(K):
     """AXILite2Wishbone with a free Wishbone slave (any ack latency): cyc/stb/adr/we/sel/dat_w held until ack"""
     from litex.soc.interconnect import axi, wishbone
@@ -314,6 +359,8 @@ def jobs(tier):
           Job("axilite2csr", build_axil2csr, dict(K=K), cost=6),
           Job("axilite_conv_16to8", build_axil_conv, dict(dwm=16, dws=8, depth_s=8, K=K + 4), cost=15),
           Job("axilite_conv_8to16", build_axil_conv, dict(dwm=8, dws=16, depth_s=4, K=K), cost=8),
+          Job("axilite_sram_free_master", build_axil_slave_proto, dict(kind="sram", K=K + 4), cost=8), Job("axilite_csr_free_master", build_axil_slave_proto, dict(kind="csr", K=K + 4), cost=8),
+          Job("axilite_wb_free_master", build_axil_slave_proto, dict(kind="wb", K=K + 4), cost=8),
           Job("axilite2wishbone_proto", build_axil2wb_proto, dict(K=K), cost=5),
           Job("wishbone2axilite_proto", build_wb2axil_proto, dict(K=K), cost=5),
           Job("axilite_conv_16to8_proto", build_axil_conv_proto, dict(dwm=16, dws=8, K=K + 2), cost=10)]
